@@ -2379,6 +2379,13 @@ class SFTPGlob:
             if filename in (b'.', b'..'):
                 continue
 
+            # Never let a name from a directory listing point outside of
+            # the directory being searched
+            if b'/' in filename or \
+                    (sys.platform == 'win32' and b'\\' in filename):
+                raise SFTPBadMessage('Invalid filename in '
+                                     'directory listing')
+
             if not pattern or fnmatch(filename, pattern):
                 newpath = posixpath.join(path, filename)
                 attrs = entry.attrs
